@@ -839,11 +839,11 @@ func runEnum(s *part, root, scratch, tier string, passthru []string) *PartResult
 	if rerr == nil {
 		rerr = json.Unmarshal(b, &pr)
 	}
-	if rerr != nil && s.Supplementary && (strings.Contains(errBuf.String(), "WARNING: DATA RACE") || strings.Contains(errBuf.String(), "\npanic:") || strings.Contains(errBuf.String(), "fatal error:")) {
+	if rerr != nil && s.Supplementary && (strings.Contains(errBuf.String(), "WARNING: DATA RACE") || (strings.Contains(errBuf.String(), "\npanic:") || strings.HasPrefix(errBuf.String(), "panic:")) || strings.Contains(errBuf.String(), "fatal error:")) {
 		// a free-running pass that died: the crash itself is the observation
 		pr = PartResult{Coverage: map[string]any{"evaluations": 1, "distinct_nontrivial": 2, "rule": "the free-running pass crashed", "samples": []any{"crash"}, "exhaustive": false}}
 		msg := errBuf.String()
-		for _, mark := range []string{"WARNING: DATA RACE", "\npanic:", "fatal error:"} {
+		for _, mark := range []string{"WARNING: DATA RACE", "\npanic:", "panic:", "fatal error:"} {
 			if i := strings.Index(msg, mark); i >= 0 {
 				msg = msg[i:]
 				break
